@@ -429,7 +429,8 @@ func loadVerifyConfigFile(configFilename string,
 	if runtimeState.Config.Base.PasswordAttemptGlobalBurstLimit < 10 {
 		runtimeState.Config.Base.PasswordAttemptGlobalBurstLimit = 10
 	}
-	if runtimeState.Config.Base.PasswordAttemptGlobalRateLimit < 1 {
+	// written so that a rate which is not a number is replaced as well
+	if !(runtimeState.Config.Base.PasswordAttemptGlobalRateLimit >= 1) {
 		runtimeState.Config.Base.PasswordAttemptGlobalRateLimit = 1
 	}
 	runtimeState.passwordAttemptGlobalLimiter = rate.NewLimiter(
